@@ -188,40 +188,40 @@ fn f_no_ambiguity_nullable(kind: u8) {
 //@ tier: quick
 //@ cost: 60
 //@ bound: ReCompiler::no_ambiguity(Atom['a'], GreedyFixed over Atom['b'] with min = 0 and max in {1, unbounded}, case_blind, reluctant), all flag combinations: must be false - the next term can match the empty string, so the repeat before it has to keep backtracking
-//@ encodes: ReCompiler::no_ambiguity Operation::repeat_operation
-icu_stubs! { #[kani::unwind(12)] pub(crate) fn f_no_ambiguity_nullable_greedyfixed() { f_no_ambiguity_nullable(0) } }
+//@ encodes: ReCompiler::no_ambiguity Operation::repeat_operation (CharacterClass::is_disjoint stubbed by an arbitrary answer)
+nodisjoint_stubs! { #[kani::unwind(12)] pub(crate) fn f_no_ambiguity_nullable_greedyfixed() { f_no_ambiguity_nullable(0) } }
 
 //@ harness: f_no_ambiguity_nullable_reluctantfixed
 //@ props: C08 C01
 //@ tier: quick
 //@ cost: 60
 //@ bound: ReCompiler::no_ambiguity(Atom['a'], ReluctantFixed over Atom['b'] with min = 0 and max in {1, unbounded}, case_blind, reluctant), all flag combinations: must be false - the next term can match the empty string, so the repeat before it has to keep backtracking
-//@ encodes: ReCompiler::no_ambiguity Operation::repeat_operation
-icu_stubs! { #[kani::unwind(12)] pub(crate) fn f_no_ambiguity_nullable_reluctantfixed() { f_no_ambiguity_nullable(1) } }
+//@ encodes: ReCompiler::no_ambiguity Operation::repeat_operation (CharacterClass::is_disjoint stubbed by an arbitrary answer)
+nodisjoint_stubs! { #[kani::unwind(12)] pub(crate) fn f_no_ambiguity_nullable_reluctantfixed() { f_no_ambiguity_nullable(1) } }
 
 //@ harness: f_no_ambiguity_nullable_unambiguous
 //@ props: C08 C01
 //@ tier: quick
 //@ cost: 60
 //@ bound: ReCompiler::no_ambiguity(Atom['a'], UnambiguousRepeat over Atom['b'] with min = 0 and max in {1, unbounded}, case_blind, reluctant), all flag combinations: must be false - the next term can match the empty string, so the repeat before it has to keep backtracking
-//@ encodes: ReCompiler::no_ambiguity Operation::repeat_operation
-icu_stubs! { #[kani::unwind(12)] pub(crate) fn f_no_ambiguity_nullable_unambiguous() { f_no_ambiguity_nullable(2) } }
+//@ encodes: ReCompiler::no_ambiguity Operation::repeat_operation (CharacterClass::is_disjoint stubbed by an arbitrary answer)
+nodisjoint_stubs! { #[kani::unwind(12)] pub(crate) fn f_no_ambiguity_nullable_unambiguous() { f_no_ambiguity_nullable(2) } }
 
 //@ harness: f_no_ambiguity_nullable_repeat_greedy
 //@ props: C08 C01
 //@ tier: quick
 //@ cost: 60
 //@ bound: ReCompiler::no_ambiguity(Atom['a'], greedy variable Repeat over Atom['b'] with min = 0 and max in {1, unbounded}, case_blind, reluctant), all flag combinations: must be false - the next term can match the empty string, so the repeat before it has to keep backtracking
-//@ encodes: ReCompiler::no_ambiguity Operation::repeat_operation
-icu_stubs! { #[kani::unwind(12)] pub(crate) fn f_no_ambiguity_nullable_repeat_greedy() { f_no_ambiguity_nullable(3) } }
+//@ encodes: ReCompiler::no_ambiguity Operation::repeat_operation (CharacterClass::is_disjoint stubbed by an arbitrary answer)
+nodisjoint_stubs! { #[kani::unwind(12)] pub(crate) fn f_no_ambiguity_nullable_repeat_greedy() { f_no_ambiguity_nullable(3) } }
 
 //@ harness: f_no_ambiguity_nullable_repeat_reluctant
 //@ props: C08 C01
 //@ tier: quick
 //@ cost: 60
 //@ bound: ReCompiler::no_ambiguity(Atom['a'], reluctant variable Repeat over Atom['b'] with min = 0 and max in {1, unbounded}, case_blind, reluctant), all flag combinations: must be false - the next term can match the empty string, so the repeat before it has to keep backtracking
-//@ encodes: ReCompiler::no_ambiguity Operation::repeat_operation
-icu_stubs! { #[kani::unwind(12)] pub(crate) fn f_no_ambiguity_nullable_repeat_reluctant() { f_no_ambiguity_nullable(4) } }
+//@ encodes: ReCompiler::no_ambiguity Operation::repeat_operation (CharacterClass::is_disjoint stubbed by an arbitrary answer)
+nodisjoint_stubs! { #[kani::unwind(12)] pub(crate) fn f_no_ambiguity_nullable_repeat_reluctant() { f_no_ambiguity_nullable(4) } }
 
 //@ harness: f_no_ambiguity_end
 //@ props: C08
@@ -244,3 +244,328 @@ icu_stubs! {
         std::mem::forget(op1);
     }
 }
+
+// ---- ReCompiler::escape as a verbatim slice (C07, C17, C19, C05) -------------
+#[derive(Clone, Copy, PartialEq, Eq)]
+enum EscWant {
+    Char(char),
+    Class(slice_esc::Kind, bool),
+    BackRef(usize),
+    Reject,
+    BlockName, // \p{Is..}: acceptance depends on the block table (not modelled)
+}
+
+fn is_single_char_escape(e: char) -> bool {
+    matches!(e, '\\' | '|' | '.' | '-' | '^' | '?' | '*' | '+' | '{' | '}' | '(' | ')' | '[' | ']')
+}
+
+fn valid_category(a: char, b: char, n: usize) -> bool {
+    match n {
+        1 => matches!(a, 'L' | 'M' | 'N' | 'P' | 'Z' | 'S' | 'C'),
+        2 => match a {
+            'L' => matches!(b, 'u' | 'l' | 't' | 'm' | 'o'),
+            'M' => matches!(b, 'n' | 'c' | 'e'),
+            'N' => matches!(b, 'd' | 'l' | 'o'),
+            'P' => matches!(b, 'c' | 'd' | 's' | 'e' | 'i' | 'f' | 'o'),
+            'Z' => matches!(b, 's' | 'l' | 'p'),
+            'S' => matches!(b, 'm' | 'c' | 'k' | 'o'),
+            'C' => matches!(b, 'c' | 'f' | 'o' | 'n'),
+            _ => false,
+        },
+        _ => false,
+    }
+}
+
+fn f_escape<const N: usize>(xpath: bool) {
+    use slice_esc::Kind;
+    let (t, len) = sym_arr::<N>();
+    kani::assume(len >= 1 && t[0] == '\\');
+    let in_sq: bool = kani::any();
+    let open: usize = kani::any(); // capturing_open_paren_count = groups opened so far + 1
+    kani::assume(open >= 1 && open <= 13);
+    let closed: [bool; 16] = [
+        false, kani::any(), kani::any(), kani::any(), kani::any(), kani::any(), kani::any(), kani::any(),
+        kani::any(), kani::any(), kani::any(), kani::any(), kani::any(), false, false, false,
+    ];
+    // ---- reference, written from the grammar / the property statements -------
+    let mut want = EscWant::Reject;
+    let mut want_idx = 2;
+    if len >= 2 {
+        let e = t[1];
+        if e == 'n' {
+            want = EscWant::Char('\n');
+        } else if e == 'r' {
+            want = EscWant::Char('\r');
+        } else if e == 't' {
+            want = EscWant::Char('\t');
+        } else if is_single_char_escape(e) {
+            want = EscWant::Char(e);
+        } else if e == '$' {
+            if xpath {
+                want = EscWant::Char('$');
+            }
+        } else if e == 's' || e == 'S' {
+            want = EscWant::Class(Kind::Space, e == 'S');
+        } else if e == 'i' || e == 'I' {
+            want = EscWant::Class(Kind::NameStart, e == 'I');
+        } else if e == 'c' || e == 'C' {
+            want = EscWant::Class(Kind::NameChar, e == 'C');
+        } else if e == 'd' || e == 'D' {
+            want = EscWant::Class(Kind::Digit, e == 'D');
+        } else if e == 'w' || e == 'W' {
+            want = EscWant::Class(Kind::Word, e == 'W');
+        } else if e == 'p' || e == 'P' {
+            if len >= 3 && t[2] == '{' {
+                // first '}' at or after index 3
+                let mut close = N;
+                let mut k = 3;
+                while k < N {
+                    if k < len && close == N && t[k] == '}' {
+                        close = k;
+                    }
+                    k += 1;
+                }
+                if close < N {
+                    let n = close - 3;
+                    if n == 1 || n == 2 {
+                        if valid_category(t[3], if n == 2 { t[4] } else { '\0' }, n) {
+                            want = EscWant::Class(Kind::Category, e == 'P');
+                            want_idx = close + 1;
+                        }
+                    } else if n >= 2 && t[3] == 'I' && t[4] == 's' {
+                        want = EscWant::BlockName;
+                        want_idx = close + 1;
+                    }
+                }
+            }
+        } else if e >= '1' && e <= '9' {
+            if !in_sq && xpath {
+                // longest number that does not exceed the number of groups opened so far
+                let mut n = (e as usize) - ('0' as usize);
+                let mut i = 2;
+                let mut go = true;
+                let mut k = 2;
+                while k < N {
+                    if go && i < len && t[i] >= '0' && t[i] <= '9' && n * 10 + ((t[i] as usize) - ('0' as usize)) <= open - 1 {
+                        n = n * 10 + ((t[i] as usize) - ('0' as usize));
+                        i += 1;
+                    } else {
+                        go = false;
+                    }
+                    k += 1;
+                }
+                if n < 16 && closed[n] {
+                    want = EscWant::BackRef(n);
+                    want_idx = i;
+                }
+            }
+        }
+    }
+    kani::cover!(!xpath || matches!(want, EscWant::BackRef(n) if n >= 10), "two-digit back-reference");
+    kani::cover!(!xpath || (len >= 3 && t[1] == '1' && t[2] >= '0' && t[2] <= '9' && matches!(want, EscWant::BackRef(1))), "digit after \\1 left as a literal");
+    kani::cover!(matches!(want, EscWant::Class(Kind::Category, true)), "complemented category escape");
+    kani::cover!(matches!(want, EscWant::Class(Kind::Word, false)), "\\w");
+    kani::cover!(len == 1, "escape terminates the pattern");
+    kani::cover!(xpath || (len >= 2 && t[1] == '$'), "\\$ under XSD");
+    kani::cover!(N < 7 || matches!(want, EscWant::BlockName), "block escape");
+    let mut v = slice_esc::View {
+        pattern: &t[..len],
+        len,
+        idx: 0,
+        capturing_open_paren_count: open,
+        captures: slice_esc::Caps { closed },
+        has_back_references: false,
+        re_flags: slice_esc::Flags { lang: if xpath { slice_esc::Language::XPath } else { slice_esc::Language::XSD } },
+    };
+    let got = v.escape(in_sq);
+    match got {
+        Ok(slice_esc::CharacterClassOrBackReference::CharacterClass(slice_esc::CharacterClassBuilder::Char(c))) => {
+            kani::assert(matches!(want, EscWant::Char(w) if w == c), "C07.escape.single-character-escape");
+            kani::assert(v.idx == 2, "C07.escape.cursor");
+        }
+        Ok(slice_esc::CharacterClassOrBackReference::CharacterClass(
+            slice_esc::CharacterClassBuilder::CodePointInversionListBuilder(tag),
+        )) => {
+            kani::assert(
+                matches!(want, EscWant::Class(k, neg) if k == tag.kind && neg == tag.negated)
+                    || (matches!(want, EscWant::BlockName) && tag.kind == Kind::Block && tag.negated == (t[1] == 'P')),
+                "C07.escape.class-escape-denotes-the-right-class-and-complement",
+            );
+            kani::assert(v.idx == want_idx, "C07.escape.cursor-after-class-escape");
+        }
+        Ok(slice_esc::CharacterClassOrBackReference::BackReference(n)) => {
+            kani::assert(matches!(want, EscWant::BackRef(w) if w == n), "C19.escape.back-reference-number (longest valid, closed group, XPath only, not in a class)");
+            kani::assert(v.idx == want_idx, "C19.escape.remaining-digits-are-literals");
+            kani::assert(v.has_back_references, "C19.escape.marks-program-as-having-back-references");
+        }
+        Err(e) => {
+            kani::assert(matches!(want, EscWant::Reject | EscWant::BlockName), "C07.escape.valid-escape-rejected");
+            kani::assert(matches!(e, slice_esc::Error::Syntax), "C05.escape.error-is-Syntax-not-Internal");
+        }
+    }
+}
+
+//@ harness: f_escape_xpath_n7
+//@ props: C07 C19 C05
+//@ tier: quick
+//@ cost: 200
+//@ slice: c07_escape
+//@ bound: body of ReCompiler::escape (verbatim slice; class builders -> tags, String -> NameStr) in the XPath dialect on EVERY text backslash + up to 6 chars over all scalar values, inside/outside a class, 0..12 groups opened, any set of closed groups: accepted set, kind of result (char / which class, complemented or not / back-reference number by the longest-valid-number rule), cursor, Err(Syntax) otherwise; block names not decided
+//@ encodes: ReCompiler::escape(slice)
+std_stubs! { #[kani::unwind(10)] pub(crate) fn f_escape_xpath_n7() { f_escape::<7>(true) } }
+
+//@ harness: f_escape_xsd_n7
+//@ props: C17 C07 C05
+//@ tier: quick
+//@ cost: 200
+//@ slice: c07_escape
+//@ bound: body of ReCompiler::escape (verbatim slice) in the XSD dialect, same domain: as XPath except that backslash-dollar and backslash-digit are rejected everywhere (inside classes too)
+//@ encodes: ReCompiler::escape(slice)
+std_stubs! { #[kani::unwind(10)] pub(crate) fn f_escape_xsd_n7() { f_escape::<7>(false) } }
+
+//@ harness: f_escape_xpath_n8
+//@ props: C07 C19 C05
+//@ tier: thorough
+//@ cost: 900
+//@ slice: c07_escape
+//@ bound: body of ReCompiler::escape (verbatim slice), XPath dialect, EVERY text backslash + up to 7 chars over all scalar values
+//@ encodes: ReCompiler::escape(slice)
+std_stubs! { #[kani::unwind(11)] pub(crate) fn f_escape_xpath_n8() { f_escape::<8>(true) } }
+
+// ---- ReCompiler::piece as a verbatim slice (C20, C02, C17, C01) --------------
+// The terminal is abstract (an anchor, or a term of which only the static facts
+// piece() consults are known); the oracle says which operator - up to
+// behavioural equivalence - the quantified term has to become.
+fn f_piece(xpath: bool) {
+    use slice_piece::{Operation as Op, Term};
+    let (t, len) = sym_arr::<3>();
+    kani::assume(len >= 1);
+    let tk: u8 = kani::any();
+    kani::assume(tk < 3);
+    let zls: u32 = kani::any();
+    kani::assume(zls == 7 || zls == 1024 || zls == 1 || zls == 2 || zls == 0);
+    let ml: Option<usize> = kani::any();
+    if let Some(k) = ml {
+        kani::assume(k <= 3);
+        // a term of fixed non-zero length can never match the empty string
+        kani::assume(k == 0 || zls == 1024);
+    }
+    let terminal = match tk {
+        0 => Op::Term(Term { zls, ml }),
+        1 => Op::Bol(slice_piece::Bol),
+        _ => Op::Eol(slice_piece::Eol),
+    };
+    let bracket_ok: bool = kani::any();
+    let bmin: usize = kani::any();
+    let bmax: usize = kani::any();
+    kani::assume(bmin <= bmax);
+    // ---- reference ---------------------------------------------------------
+    #[derive(Clone, Copy, PartialEq, Eq)]
+    enum Want {
+        Reject,
+        Same,
+        Nothing,
+        Rep { min: usize, max: usize, greedy: bool }, // a repetition operator with these bounds
+    }
+    let q = if len > 1 { t[1] } else { 'x' };
+    let quantified = len > 1 && (q == '?' || q == '*' || q == '+' || q == '{');
+    let mut want = Want::Same;
+    let mut want_idx = 1;
+    let mut also_same = false; // a nullable term under `?`-like bounds is its own optional form
+    let mut reluct = false;
+    if quantified {
+        let (min, max) = if q == '?' { (0, 1) } else if q == '*' { (0, usize::MAX) } else if q == '+' { (1, usize::MAX) } else { (bmin, bmax) };
+        reluct = len > 2 && t[2] == '?';
+        want_idx = if reluct { 3 } else { 2 };
+        if q == '{' && !bracket_ok {
+            want = Want::Reject;
+        } else if reluct && !xpath {
+            want = Want::Reject;
+        } else if tk != 0 {
+            // a quantified anchor: zero occurrences allowed -> no constraint at all, else the anchor
+            want = if min == 0 { Want::Nothing } else { Want::Same };
+        } else {
+            let nullable = zls == 7;
+            // r{n,m} for a term that can match empty anywhere == r{0,m}
+            let mn = if nullable { 0 } else { min };
+            if max == 0 {
+                want = Want::Nothing;
+            } else if mn == 1 && max == 1 {
+                want = Want::Same;
+            } else if ml == Some(0) {
+                // only ever matches the empty string: one occurrence is as good as many
+                want = if mn == 0 { Want::Nothing } else { Want::Same };
+                // ... and if it matches the empty string everywhere it IS the empty regex
+                also_same = nullable;
+            } else {
+                want = Want::Rep { min: mn, max, greedy: !reluct };
+                also_same = nullable && max == 1;
+            }
+        }
+    }
+    kani::cover!(!xpath || matches!(want, Want::Rep { greedy: false, .. }), "reluctant repetition");
+    kani::cover!(matches!(want, Want::Rep { min: 2, max: 5, greedy: true }), "greedy {2,5}");
+    kani::cover!(want == Want::Reject && !xpath && reluct || xpath, "reluctant quantifier under XSD");
+    kani::cover!(quantified && tk == 0 && zls == 7 && q == '{' && bracket_ok && bmax == 2, "bounded quantifier on a nullable term");
+    kani::cover!(quantified && tk == 0 && ml == Some(0) && zls != 7 && q == '+', "plus on a zero-length, not always matching term");
+    kani::cover!(quantified && tk != 0 && q == '+', "quantified anchor");
+    let mut v = slice_piece::View {
+        pattern: &t[..len],
+        len,
+        idx: 0,
+        bracket_min: 0,
+        bracket_max: 0,
+        re_flags: slice_piece::Flags { lang: if xpath { slice_piece::Language::XPath } else { slice_piece::Language::XSD } },
+        terminal,
+        bracket_ok,
+        bracket_answer: (bmin, bmax),
+    };
+    let fl = [0u32];
+    match v.piece(&fl) {
+        Err(e) => {
+            kani::assert(want == Want::Reject, "C07.piece.valid-quantifier-rejected");
+            kani::assert(matches!(e, slice_piece::Error::Syntax), "C05.piece.error-is-Syntax");
+        }
+        Ok(op) => {
+            kani::assert(want != Want::Reject, "C17.piece.reluctant-quantifier-under-XSD-or-bad-bounds-must-be-rejected");
+            kani::assert(want == Want::Reject || v.idx == want_idx, "C07.piece.cursor-after-quantifier");
+            let ok = match (want, op) {
+                (Want::Reject, _) => true, // already reported above
+                (Want::Same, o) => o == terminal,
+                (Want::Nothing, Op::Nothing(_)) => true,
+                (Want::Nothing, o) => also_same && o == terminal,
+                (Want::Rep { min, max, greedy }, Op::Repeat(r)) => r.min == min && r.max == max && r.greedy == greedy,
+                (Want::Rep { min, max, greedy }, Op::GreedyFixed(g)) => {
+                    greedy && g.min == min && g.max == max && matches!(ml, Some(k) if k > 0 && k == g.len)
+                }
+                (Want::Rep { min, max, greedy }, Op::ReluctantFixed(g)) => {
+                    !greedy && g.min == min && g.max == max && matches!(ml, Some(k) if k == g.len)
+                }
+                (Want::Rep { .. }, o) => also_same && o == terminal,
+            } || (
+                // a reluctant repetition of a zero-length term may also stay a ReluctantFixed of length 0
+                reluct && ml == Some(0) && tk == 0
+                    && matches!(op, Op::ReluctantFixed(g) if g.len == 0 && g.max >= 1)
+            );
+            kani::assert(ok, "C20.piece.quantified-term-becomes-an-equivalent-operator (bounds, greediness, fixed/variable family)");
+        }
+    }
+}
+
+//@ harness: f_piece_xpath
+//@ props: C20 C02 C01 C07
+//@ tier: quick
+//@ cost: 100
+//@ slice: c20_piece
+//@ bound: body of ReCompiler::piece (verbatim slice; sub-parsers and operator constructors abstracted) in the XPath dialect for EVERY abstract terminal (anchor, or term with nullability code in {anywhere, never, at-start, at-end, unknown} and match length in {variable, 0, 1..3}), every quantifier text of <= 2 chars after it over all scalar values, every {n,m} answer with n<=m over all usize: the operator built has the right bounds and greediness and belongs to an admissible family
+//@ encodes: ReCompiler::piece(slice)
+std_stubs! { #[kani::unwind(6)] pub(crate) fn f_piece_xpath() { f_piece(true) } }
+
+//@ harness: f_piece_xsd
+//@ props: C17 C20 C07
+//@ tier: quick
+//@ cost: 100
+//@ slice: c20_piece
+//@ bound: the same in the XSD dialect: additionally every reluctant quantifier is rejected with Err(Syntax)
+//@ encodes: ReCompiler::piece(slice)
+std_stubs! { #[kani::unwind(6)] pub(crate) fn f_piece_xsd() { f_piece(false) } }
